@@ -2,7 +2,8 @@
 
 The real `Module.__pollThread` body runs as the single managed poll thread of a `vlib.sched.Scheduler` (virtual clock,
 1 tick = 2^-10 s, one tick per clock read) over 1..4 generated modules (optionally behind a shared io module), with
-scripted durations/failures of `doPoll` / `read_*` / `initialReads`, and an 'actor' thread changing intervals, switching
+scripted durations/failures of `doPoll` / `read_*` / `initialReads` / the start-up writes (in the start-up round and in
+the `writeInitParams` calls behind it), and an 'actor' thread changing intervals, switching
 fast polling, triggering and simulating reconnects.  A 'stopper' thread aborts the run at the virtual deadline.
 
 Recorded per run: every call the poll thread makes (start, module, function, duration), what the environment did
@@ -25,7 +26,9 @@ MAX_CALLS = 40000        # a run is also ended (like at the virtual deadline) af
 META = {
     'level_text': 'Theorems over the Lean model of the poll thread body (Timed/Poller.lean) and of the poll flag computation '
                   '(Timed/PollFlags.lean), all proved in full: errors_contained (successor state and call list of a turn independent '
-                  'of every outcome, every environment), nopoll_never_read (the monitor clause NoPollNeverRead for every trace of '
+                  'of every outcome, every environment), late_writes_contained / errors_contained_after_round (the writeInitParams '
+                  'calls the repaired thread makes behind its start-up round - one per module, whatever any of them raises - and '
+                  'everything after them are independent of every outcome), nopoll_never_read (the monitor clause NoPollNeverRead for every trace of '
                   'prologue + any number of turns, every environment), poll_flags_mark / polled_is_mayPoll (the flag the thread tests is '
                   'set exactly for parameters not marked as not polled, every kind of declaration), interval_change_triggers / _wakes / '
                   '_next_wakeup / _not_lost / _in_window (every environment, incl. actions between wait and clear), '
@@ -35,7 +38,9 @@ META = {
                   'interval_change_takes_effect (after arbitrary actions of other threads: first start <= max(last_main + new interval, '
                   'moment of change) + sweep, later gaps <= new interval + sweep), slow_refresh_bound(_thread) (clock <= latest refresh + '
                   '1.5*slow + (2N+2)*sweep + 2) and bounds_from_thread_start (both bounds from the state PollInfo.__init__ leaves) for '
-                  'quiet environments with durations <= D and clock steps <= E.  The model is tied to frappy/modulebase.py and '
+                  'quiet environments with durations <= D and clock steps <= E; the bounds count from the start of the loop, i.e. from '
+                  'the end of the late writes (like the writes of the start-up round they are not poll functions and have no bound).  '
+                  'The model is tied to frappy/modulebase.py and '
                   'frappy/rwhandler.py by replaying every recorded environment of the real _Module__pollThread (virtual time, other '
                   'threads acting inside poll functions, inside waits, at the entry of wait and of clear) through the Lean `turn` and '
                   'comparing the call lists, and by comparing the real poll flags with the model; the Lean monitors check the full '
@@ -48,7 +53,8 @@ META = {
                   'outside the model.',
     'trusted': [
         'virtual time: every clock read advances by >= 1 tick; durations are those the fake drivers sleep on the patched clock',
-        'instrumentation: mobj.callPollFunc / writeInitParams / triggerPoll.wait / triggerPoll.clear are wrapped on the instances (the originals run inside)',
+        'instrumentation: mobj.callPollFunc / writeInitParams / triggerPoll.wait / triggerPoll.clear are wrapped on the instances (the originals run inside); '
+        'every writeInitParams call of the poll thread is a call of kind w, every initialReads (generated) a call of kind i',
         'the recipe of the generated classes (decls_of: how each read function is declared; enablePoll) as reported to the judge',
         'BaseException (SystemExit, KeyboardInterrupt) is deliberately not contained by callPollFunc and is outside the statement',
     ],
@@ -319,6 +325,7 @@ def build_classes(rec, spec_mods, T):
 
         def initialReads(self, _s=init_script, _r=init_reads, mi=mi):
             k, d, o = _script_next(rec, (mi, 'init'), _s)
+            rec.begin(rec.index[self.name], 'i')       # `initialReads` is a call of its own ('i')
             rec.depth += 1
             try:
                 for pn in _r:
@@ -332,7 +339,7 @@ def build_classes(rec, spec_mods, T):
                 raise
             finally:
                 rec.depth -= 1
-                rec.end()          # the 'init' call began in writeInitParams
+                rec.end()
         ns['initialReads'] = initialReads
 
         if spec.get('written'):
@@ -341,7 +348,7 @@ def build_classes(rec, spec_mods, T):
             wd, wo = spec.get('wscript', [0, 'ok'])
 
             def write_w(self, value, _d=wd, _o=wo):
-                # the write of the configured value at start-up (inside writeInitParams, i.e. inside the 'init' call)
+                # the write of the configured value at start-up (inside writeInitParams, i.e. inside a 'w' call)
                 if _d:
                     T.sleep(_d / TICKS)
                 _raise(_o)
@@ -487,6 +494,7 @@ def impl_run(case):
         if missing or not thread_mods:
             raise HarnessProblem(f'modules do not share one poll thread: {[m.name for m in thread_mods]} (missing {missing})')
         index = {m.name: i for i, m in enumerate(thread_mods)}       # model index = position in the thread's list
+        rec.index = index
         spec_of = {('m%d' % mi): spec for mi, spec in enumerate(spec_mods)}
 
         model_mods, judge_mods, impl_flags = [], [], []
@@ -514,6 +522,8 @@ def impl_run(case):
                                'pollinterval': iv, 'cmds': [], 'names': names})
             rec.cmds[i] = judge_mods[-1]['cmds']
 
+        state = {'exited': False, 'started': None}
+
         # ---- instrumentation on the instances
         def fn_code(mobj, name):
             if name == 'doPoll':
@@ -533,8 +543,13 @@ def impl_run(case):
             mobj.callPollFunc = cpf
 
             def wip(_orig=mobj.writeInitParams, _i=i):
-                rec.begin(_i, 'i')
-                return _orig()
+                # every `writeInitParams` of the poll thread — in the start-up round and behind it — is a call of its own ('w')
+                rec.begin(_i, 'w')
+                try:
+                    return _orig()
+                finally:
+                    if rec.cur is not None:
+                        rec.end()
             mobj.writeInitParams = wip
 
         ev = owner.triggerPoll
@@ -598,8 +613,6 @@ def impl_run(case):
         ev.clear = clear
 
         # ---- threads
-        state = {'exited': False, 'started': None}
-
         def started_cb():
             state['started'] = rec.now()
 
@@ -699,6 +712,11 @@ def impl_run(case):
             b = None
             if idx is not None and rec.poller is not None:
                 b = note_ext(['ui', idx, _tick(pollinterval)])
+                if rec.is_poller() and rec.cur is not None and rec.cur['f'] == 'w':
+                    # writeInitParams writes the configured poll interval: the module is TOLD its interval, like by any other
+                    # assignment — recorded for the judge where it is issued.  (Behind a start-up round that a communication
+                    # failure broke off this happens after the start-up callback, i.e. it can come after a client's change.)
+                    rec.cmds[idx].append(['pi', rec.now(), _tick(pollinterval)])
             r = orig_ui(self, pollinterval)
             if b is not None:
                 b['set'] = ev.is_set()
@@ -1054,6 +1072,22 @@ BOUNDARY = [
                  {'at': 12001, 'op': 'pi', 'm': 2, 'v': 1024}, {'at': 15001, 'op': 'fast', 'm': 2, 'flag': False, 'v': 256},
                  {'at': 20001, 'op': 'pi', 'm': 1, 'v': 10240}, {'at': 22001, 'op': 'trig', 'm': 1, 'imm': True}],
      'actions_note': 'hand written', 'T': 50 * TICKS, 'start': 1000},
+    # communication failure in initialReads of the first user of a shared io: the start-up round is broken off, the configured
+    # values of the modules behind it are written afterwards (one write is slow and ends with an arbitrary exception, one
+    # module is on the thread only for its write, which ends with a communication error), then everybody is polled
+    {'mods': [{'base': 'io', 'pollinterval': 2560, 'slow': 4096, 'params': [], 'enabled': True, 'doPoll': [[8, 'ok']], 'init': [[0, 'ok']]},
+              {'base': 'readable', 'has_io': True, 'pollinterval': 1024, 'slow': 2048,
+               'params': [{'name': 'a', 'kind': 'read', 'script': [[16, 'ok']]}],
+               'doPoll': [[16, 'ok']], 'doPollReads': [], 'init': [[16, 'comm']], 'initReads': [], 'enabled': True,
+               'written': True, 'wscript': [8, 'ok']},
+              {'base': 'readable', 'has_io': True, 'pollinterval': 512, 'slow': 2048,
+               'params': [{'name': 'a', 'kind': 'read', 'script': [[16, 'ok']]}],
+               'doPoll': [[16, 'ok']], 'doPollReads': [], 'init': [[0, 'ok']], 'initReads': [], 'enabled': True,
+               'written': True, 'wscript': [256, 'zd']},
+              {'base': 'module', 'has_io': True, 'pollinterval': 1024, 'slow': 2048, 'params': [],
+               'doPoll': [[0, 'ok']], 'doPollReads': [], 'init': [[0, 'ok']], 'initReads': [], 'enabled': False,
+               'written': True, 'wscript': [16, 'comm']}],
+     'actions': [{'at': 100, 'op': 'fast', 'm': 2, 'flag': True, 'v': 64}], 'T': 40 * TICKS, 'start': 1000},
 ]
 
 
@@ -1061,7 +1095,7 @@ BOUNDARY = [
 def classify_violation(obs, judge):
     if not judge['alive']:
         last = obs['calls'][-1] if obs['calls'] else None
-        where = 'start' if last is None else ('initialReads' if last['f'] == 'i' else ('doPoll' if last['f'] == 'd' else 'read'))
+        where = 'start' if last is None else {'i': 'initialReads', 'w': 'writeInitParams', 'd': 'doPoll'}.get(last['f'], 'read')
         return f'C13:thread-died:{where}'
     if not judge['nopoll']:
         return 'C13:nopoll-read'
@@ -1201,6 +1235,9 @@ def run(ctx):
         res.count('interval0' if zero_interval(case) else 'interval>0')
         res.count('failing-calls=%s' % ('0' if not fails else '1-9' if fails < 10 else '10+'))
         res.count('startup-abort' if model.get('aborted') else 'startup-complete')
+        late = [c for c in obs['calls'] if c['f'] == 'w']
+        if any(c['d'] > 0 for c in late):
+            res.count('late-write-takes-time')
         if any(m.get('doPollActs') for m in case['mods']):
             res.count('commands-from-own-doPoll')
         for m in case['mods']:
